@@ -87,6 +87,10 @@ struct LongKeys { int a = 0, b = 0, c = 0; std::string s;
 	template <class A> void Serialize(A& ar) { ar << KeyValue(VF_KEY31, a) << KeyValue(VF_KEY32, b) << KeyValue(VF_KEY33, c) << KeyValue("s", s); } };
 struct EmptyKey { int a = 0; std::string s; int z = 0;   // the empty string as a member name (not an XML Name: excluded for XML like the other non-Name keys, KF-44)
 	template <class A> void Serialize(A& ar) { ar << KeyValue("a", a) << KeyValue("", s) << KeyValue("z", z); } };
+struct WithAttrs { int id = 0; double ratio = 0; float weight = 0; std::string label; bool flag = false; uint64_t big = 0; double node = 0;   // XML: the first six are attributes of the element; elsewhere plain members
+	template <class A> void Serialize(A& ar) {
+		if constexpr (BitSerializer::can_serialize_attribute_v<A>) { ar << BitSerializer::AttributeValue("id", id) << BitSerializer::AttributeValue("ratio", ratio) << BitSerializer::AttributeValue("weight", weight) << BitSerializer::AttributeValue("label", label) << BitSerializer::AttributeValue("flag", flag) << BitSerializer::AttributeValue("big", big) << KeyValue("node", node); }
+		else { ar << KeyValue("id", id) << KeyValue("ratio", ratio) << KeyValue("weight", weight) << KeyValue("label", label) << KeyValue("flag", flag) << KeyValue("big", big) << KeyValue("node", node); } } };
 struct External { int64_t id = 0; std::u16string label; };   // serialized by a global SerializeObject
 template <class A> void SerializeObject(A& a, External& v) { a << KeyValue("id", v.id) << KeyValue("label", v.label); }
 
@@ -222,6 +226,7 @@ template <class T> struct G<std::priority_queue<T>> { static std::priority_queue
 template <> struct G<Base> { static Base make(vf::Src& s, const GenCtx& g) { Base b; b.baseId = s.integer<int>(); b.baseName = gen<std::string>(s, g); return b; } };
 template <> struct G<DerivedLate> { static DerivedLate make(vf::Src& s, const GenCtx& g) { DerivedLate d; static_cast<Base&>(d) = gen<Base>(s, g); d.first = s.integer<int>(); d.last = gen<std::string>(s, g); return d; } };
 template <> struct G<TwoBases> { static TwoBases make(vf::Src& s, const GenCtx& g) { TwoBases d; static_cast<Base&>(d) = gen<Base>(s, g); d.tag = s.integer<int64_t>(); d.flag = s.coin(); return d; } };
+template <> struct G<WithAttrs> { static WithAttrs make(vf::Src& s, const GenCtx& g) { WithAttrs d; d.id = s.integer<int>(); d.ratio = gen<double>(s, g); d.weight = gen<float>(s, g); d.label = gen<std::string>(s, g); d.flag = s.coin(); d.big = s.integer<uint64_t>(); d.node = gen<double>(s, g); return d; } };
 template <> struct G<EmptyKey> { static EmptyKey make(vf::Src& s, const GenCtx& g) { EmptyKey d; d.a = s.integer<int>(); d.s = gen<std::string>(s, g); d.z = s.integer<int>(); return d; } };
 template <> struct G<LongKeys> { static LongKeys make(vf::Src& s, const GenCtx& g) { LongKeys d; d.a = s.integer<int>(); d.b = s.integer<int>(); d.c = s.integer<int>(); d.s = gen<std::string>(s, g); return d; } };
 template <> struct G<Derived> { static Derived make(vf::Src& s, const GenCtx& g) { Derived d; static_cast<Base&>(d) = gen<Base>(s, g); d.ratio = gen<double>(s, g); d.items = gen<std::vector<int>>(s, g); d.hasExtra = s.coin(); d.extra = d.hasExtra ? s.integer<int>() : 0; d.origin = gen<Pt>(s, g); return d; } };
@@ -252,6 +257,7 @@ template <class T> struct E<std::priority_queue<T>> { static bool eq(std::priori
 template <> struct E<Base> { static bool eq(const Base& a, const Base& b) { return a.baseId == b.baseId && a.baseName == b.baseName; } };
 template <> struct E<DerivedLate> { static bool eq(const DerivedLate& a, const DerivedLate& b) { return E<Base>::eq(a, b) && a.first == b.first && a.last == b.last; } };
 template <> struct E<TwoBases> { static bool eq(const TwoBases& a, const TwoBases& b) { return E<Base>::eq(a, b) && a.tag == b.tag && a.flag == b.flag; } };
+template <> struct E<WithAttrs> { static bool eq(const WithAttrs& a, const WithAttrs& b) { return a.id == b.id && mdl::eq(a.ratio, b.ratio) && mdl::eq(a.weight, b.weight) && a.label == b.label && a.flag == b.flag && a.big == b.big && mdl::eq(a.node, b.node); } };
 template <> struct E<EmptyKey> { static bool eq(const EmptyKey& a, const EmptyKey& b) { return a.a == b.a && a.s == b.s && a.z == b.z; } };
 template <> struct E<LongKeys> { static bool eq(const LongKeys& a, const LongKeys& b) { return a.a == b.a && a.b == b.b && a.c == b.c && a.s == b.s; } };
 template <> struct E<Derived> { static bool eq(const Derived& a, const Derived& b) { return E<Base>::eq(a, b) && mdl::eq(a.ratio, b.ratio) && a.items == b.items && a.hasExtra == b.hasExtra && a.extra == b.extra && a.origin == b.origin; } };
@@ -277,6 +283,7 @@ template <> struct Sh<External> { static std::string show(const External& v) { r
 template <> struct Sh<Base> { static std::string show(const Base& v) { return vf::cat("Base(", v.baseId, ",", bytes_show(v.baseName), ")"); } };
 template <> struct Sh<DerivedLate> { static std::string show(const DerivedLate& v) { return vf::cat("DerivedLate(", v.first, ",", v.baseId, ",", bytes_show(v.baseName), ",", bytes_show(v.last), ")"); } };
 template <> struct Sh<TwoBases> { static std::string show(const TwoBases& v) { return vf::cat("TwoBases(", v.baseId, ",", bytes_show(v.baseName), ",", v.tag, ",", v.flag, ")"); } };
+template <> struct Sh<WithAttrs> { static std::string show(const WithAttrs& v) { return vf::cat("WithAttrs(", v.id, ",", mdl::show(v.ratio), ",", mdl::show(v.weight), ",", bytes_show(v.label), ",", v.flag, ",", v.big, ",", mdl::show(v.node), ")"); } };
 template <> struct Sh<EmptyKey> { static std::string show(const EmptyKey& v) { return vf::cat("EmptyKey(", v.a, ",", bytes_show(v.s), ",", v.z, ")"); } };
 template <> struct Sh<LongKeys> { static std::string show(const LongKeys& v) { return vf::cat("LongKeys(", v.a, ",", v.b, ",", v.c, ",", bytes_show(v.s), ")"); } };
 template <> struct Sh<Derived> { static std::string show(const Derived& v) { return vf::cat("Derived(", v.baseId, ",", bytes_show(v.baseName), ",", v.ratio, ",n=", v.items.size(), ",", v.hasExtra, ",", v.extra, ",", v.origin.x, ")"); } };
@@ -332,6 +339,7 @@ template <class T> struct F<std::unique_ptr<T>> { static void f(const std::uniqu
 template <class T> struct F<std::shared_ptr<T>> { static void f(const std::shared_ptr<T>& v, Features& x, int d) { if (!v) x.null = true; else mdl::features(*v, x, d); } };
 template <> struct F<DerivedLate> { static void f(const DerivedLate& v, Features& x, int d) { x.nested = true; mdl::features(v.baseName, x, d + 1); mdl::features(v.last, x, d + 1); } };
 template <> struct F<TwoBases> { static void f(const TwoBases& v, Features& x, int d) { x.nested = true; mdl::features(v.baseName, x, d + 1); } };
+template <> struct F<WithAttrs> { static void f(const WithAttrs& v, Features& x, int d) { x.nested = true; mdl::features(v.label, x, d + 1); mdl::features(v.ratio, x, d + 1); mdl::features(v.weight, x, d + 1); mdl::features(v.node, x, d + 1); } };
 template <> struct F<EmptyKey> { static void f(const EmptyKey& v, Features& x, int d) { x.nested = true; mdl::features(v.s, x, d + 1); } };
 template <> struct F<LongKeys> { static void f(const LongKeys& v, Features& x, int d) { x.nested = true; mdl::features(v.s, x, d + 1); } };
 template <> struct F<Derived> { static void f(const Derived& v, Features& x, int d) { x.nested = true; mdl::features(v.baseName, x, d + 1); mdl::features(v.ratio, x, d + 1); mdl::features(v.items, x, d + 1); } };
